@@ -336,6 +336,16 @@ class Arr:
                 _srt((tuple(vkey(i) for i in w["idx"]), tuple(w["guards"]), tuple(w["loops"]), vkey(w["val"])) for w in self.writes))
 
 
+class EarlyRet:
+    """An alternative of a `?`-expression that leaves the function with `value` (only meaningful as a branch of an Alt bound by `let`)."""
+
+    def __init__(self, value):
+        self.value = value
+
+    def key(self):
+        return ("earlyret", vkey(self.value))
+
+
 class Clo:
     def __init__(self, params, body, env):
         self.params, self.body, self.env = params, body, env
@@ -347,7 +357,7 @@ class Clo:
 def vkey(v):
     if isinstance(v, Poly):
         return v.key()
-    if isinstance(v, (Rec, Tup, Sym, Alt, Clo, Seq, Coll, Arr)):
+    if isinstance(v, (Rec, Tup, Sym, Alt, Clo, Seq, Coll, Arr, EarlyRet)):
         return v.key()
     if isinstance(v, (tuple, list)):
         return tuple(vkey(x) for x in v)
@@ -387,6 +397,26 @@ def strip_refs(e):
 NUMERIC_ADTS = ("dual::dual::Dual", "dual::dual::Dual2")
 ERASE_METHODS = {"clone", "view", "to_owned", "borrow", "as_ref", "to_vec", "into_owned", "view_mut", "cloned", "copied", "deref", "reborrow"}
 F64_UNARY = {"exp": "exp", "ln": "ln", "log": "ln", "sqrt": "sqrt", "trunc": "trunc", "signum": "signum"}
+
+
+def strip_early(v):
+    """At a function boundary a path that left through `return`/`?` simply yields its value."""
+    if isinstance(v, EarlyRet):
+        return strip_early(v.value)
+    if isinstance(v, Alt):
+        return Alt([(g, strip_early(x)) for g, x in v.alts])
+    return v
+
+
+def flat_alts(v, pre=()):
+    """[(guards tuple, leaf)] of a possibly nested Alt."""
+    if isinstance(v, Alt):
+        out = []
+        for g, x in v.alts:
+            gs = tuple(g[1]) if isinstance(g, tuple) and len(g) == 2 and g[0] == "all" else (g,)
+            out.extend(flat_alts(x, pre + gs))
+        return out
+    return [(pre, v)]
 
 
 def union_vars(x, y):
@@ -450,7 +480,7 @@ class Ev:
         saved = (self.guards, self.loops, self.path)
         self.guards, self.loops, self.path = [], [], list(self.path) if depth else []
         try:
-            return self.collapse(self.eval(r["body"], env, depth + 1))
+            return self.collapse(strip_early(self.eval(r["body"], env, depth + 1)))
         except Return as ret:
             return ret.value
         finally:
@@ -692,10 +722,20 @@ class Ev:
                     if isinstance(v, Alt):
                         # path split: the rest of the block is evaluated once per alternative
                         out = []
-                        for g, x in v.alts:
+                        for gs, x in flat_alts(v):
+                            g = gs[0] if len(gs) == 1 else ("all", gs)
+                            if isinstance(x, EarlyRet):
+                                out.append((g, x))       # `?` / `return` on this alternative: the path leaves the function here
+                                continue
                             env2 = dict(env)
                             self.bind(s["pat"], x, env2)
-                            out.append((g, self._run_block(e, i + 1, env2, depth)))
+                            self.path.extend(gs)
+                            try:
+                                out.append((g, self._run_block(e, i + 1, env2, depth)))
+                            except Return as ret:
+                                out.append((g, EarlyRet(ret.value)))
+                            finally:
+                                del self.path[len(self.path) - len(gs):]
                         return Alt(out)
                     self.bind(s["pat"], v, env)
             elif s["k"] in ("expr", "semi"):
@@ -729,7 +769,7 @@ class Ev:
                         if len(out) == 1:
                             raise out[0][1]
                         raise Return(Alt([(g, v.value) for g, v in out]))
-                    out = [(g, v.value if isinstance(v, Return) else v) for g, v in out]
+                    out = [(g, EarlyRet(v.value) if isinstance(v, Return) else v) for g, v in out]
                     return out[0][1] if len(out) == 1 else self.collapse(Alt(out))
                 elif x.get("k") in ("loop",):
                     raise Unsupported("statement-level control flow (%s) at line %s" % (x["k"], x.get("ln")))
@@ -888,6 +928,8 @@ class Ev:
             return True
         if ("not", g) in self.path:
             return False
+        if isinstance(g, tuple) and len(g) == 2 and g[0] == "if" and g[1] in (("sym", "bool", "true"), ("sym", "bool", "false")):
+            return g[1][2] == "true"
         return None
 
     def exec_block(self, b, env, depth):
@@ -1188,6 +1230,16 @@ class Ev:
             return v.tag[2]
         if isinstance(v, Sym) and v.tag[:2] == ("ctor", "Err"):
             raise Return(v)
+        if isinstance(v, Alt):
+            out = []
+            for g, x in v.alts:
+                if isinstance(x, Sym) and x.tag[:2] == ("ctor", "Ok") and len(x.tag) == 3:
+                    out.append((g, x.tag[2]))
+                elif isinstance(x, Sym) and x.tag[:2] == ("ctor", "Err"):
+                    out.append((g, EarlyRet(x)))
+                else:
+                    out.append((g, x))
+            return Alt(out)
         return v      # opaque Result: the value continues as its Ok payload; the Err edge of `?` is decided on MIR where a rule needs it
 
     def ev_index(self, e, env, depth):
@@ -1413,7 +1465,7 @@ class Ev:
                 return Sym("iter", recv.key())
             if m in ("len", "len_of") and recv.order >= 1:
                 ax = args[0].tag[1] if args and isinstance(args[0], Sym) and args[0].tag[0] == "axis" else None
-                return Poly.atom(("len", recv.key(), ax))
+                return length_of(recv, ax)
             if m in F64_UNARY and not args:
                 return func_atom(F64_UNARY[m], recv)
             if m in ("powf", "pow") and len(args) == 1 and isinstance(args[0], Poly):
@@ -1503,6 +1555,21 @@ def fork_env(env):
     return out
 
 
+def length_of(v, ax=None):
+    """Symbolic length of a container value (mirrors what `.len()` evaluates to); a ones(shape) tensor has its shape's length by construction."""
+    if isinstance(v, Poly) and v.order == 1 and len(v.t) == 1:
+        ((m, t), c), = v.t.items()
+        if not m and c == 1 and isinstance(t, tuple) and t[0] == "ones" and len(t[1]) == 1:
+            return poly_from_key(t[1][0])
+    if isinstance(v, Poly):
+        return Poly.atom(("len", v.key(), ax))
+    if isinstance(v, Arr) and len(v.dims) == 1 and isinstance(v.dims[0], Poly):
+        return v.dims[0]
+    if isinstance(v, Coll):
+        return Poly.atom(("len", vkey(v.seq.src), None))
+    return Poly.atom(("len", vkey(v), None))
+
+
 def as_poly(v):
     v = num(v)
     if isinstance(v, Poly):
@@ -1516,6 +1583,10 @@ INT_TYPES = {"i8", "i16", "i32", "i64", "i128", "isize", "u8", "u16", "u32", "u6
 def cmp_sym(op, l, r, integer=False):
     """Canonical comparison: (relation, l - r) with Gt/Ge mirrored to Lt/Le; over the integers a <= b is a < b + 1."""
     d = l - r
+    cv = d.const_value()
+    if cv is not None:
+        res = {"Eq": cv == 0, "Ne": cv != 0, "Lt": cv < 0, "Le": cv <= 0, "Gt": cv > 0, "Ge": cv >= 0}[op]
+        return Sym("bool", "true" if res else "false")
     if integer and op in ("Le", "Ge"):
         if op == "Le":
             return Sym("cmp", "Lt", (d - Poly.const(1)).key())
